@@ -618,15 +618,15 @@ func runConcurrent(r *vf.Run, rng *vf.RNG, idx int) {
 	rt := kbucket.NewRoutingTable(bs, mkID(local))
 	var cbMu sync.Mutex
 	var events []cbEvent
-	cbTouch := 0 // deliberately unsynchronised: callbacks are specified to run under the table lock; if they ever run concurrently the race detector reports it with kbucket frames on the stack
+	cbTouch := new(int) // deliberately unsynchronised: callbacks are specified to run under the table lock; if they ever run concurrently the race detector reports it with kbucket frames on the stack
 	rt.PeerAdded = func(id common.PeerId) {
-		cbTouch++
+		*cbTouch++
 		cbMu.Lock()
 		events = append(events, cbEvent{true, id})
 		cbMu.Unlock()
 	}
 	rt.PeerRemoved = func(id common.PeerId) {
-		cbTouch++
+		*cbTouch++
 		cbMu.Lock()
 		events = append(events, cbEvent{false, id})
 		cbMu.Unlock()
@@ -754,7 +754,6 @@ func runConcurrent(r *vf.Run, rng *vf.RNG, idx int) {
 		hung.Store(true)
 		return
 	}
-	_ = cbTouch
 
 	// ---- quiescent point
 	report := func(v *viol) {
